@@ -393,6 +393,32 @@ fn c08(seed: u64, cases: usize, _model_path: &str, thorough: bool) -> serde_json
             failures.push(json!({"witness": w, "failure": format!("victim panicked: {msg}"), "case": desc})); }
         if matches!(o, Out::Blocked) && !matches!(run.outs[1], Out::Blocked) { failures.push(json!({"witness": "C08:hang", "failure": "victim blocked although its peer has terminated", "case": desc})); }
     } }
+    // the optional-field classes with THREE parties: one contributor's view of which slots are filled then differs from the other's (a vector assembled
+    // from "whatever was sent" may come out shorter than the number of parties). Adversary = the highest / the middle index, victim = evaluator or garbler.
+    { let c3 = Circuit { input_regs: vec![1, 1, 1], insts: vec![Inst { out: Reg(0), op: Op::Input(Input { party: 0, input: 0 }) }, Inst { out: Reg(1), op: Op::Input(Input { party: 1, input: 0 }) }, Inst { out: Reg(2), op: Op::Input(Input { party: 2, input: 0 }) },
+        Inst { out: Reg(3), op: Op::And(And(Reg(0), Reg(1))) }, Inst { out: Reg(4), op: Op::Xor(Xor(Reg(3), Reg(2))) }, Inst { out: Reg(3), op: Op::And(And(Reg(4), Reg(2))) }], max_reg_count: 5, output_regs: vec![Reg(3), Reg(4)], and_ops: 2 };
+      for (ph0, cl) in [("labels", "opt_all_none"), ("labels", "opt_all_some"), ("labels", "opt_first_none"), ("masked inputs", "opt_all_none"), ("masked inputs", "opt_all_some"), ("wire shares", "opt_all_none"), ("wire shares", "opt_all_some"),
+                        ("output wire shares", "opt_all_none"), ("output wire shares", "opt_all_some"), ("lambda", "opt_all_none"), ("lambda", "opt_all_some")] { for adv in [2usize, 1] { for pe in [0usize, 3 - adv] {
+        if (ph0 == "lambda") != (pe == adv) && ph0 == "lambda" { continue; }
+        let pe = if ph0 == "lambda" { adv } else { pe };
+        let args: Vec<PartyArgs> = (0..3).map(|p| PartyArgs { inputs: vec![true], p_eval: pe, p_own: p, p_out: vec![0, 1, 2], tmp_dir: None }).collect();
+        let (ph1, cls) = (ph0.to_string(), cl.to_string());
+        let m: exec::Mutator = Box::new(move |from, _to, ph, kk, d| { if from != adv || ph != ph1 || kk != 0 { return Some(d); }
+            Some(match (ph, cls.as_str()) {
+                ("masked inputs", "opt_all_some") => { let v: Vec<Option<bool>> = de(&d); ser(&v.into_iter().map(|e| e.or(Some(true))).collect::<Vec<_>>()) }
+                ("masked inputs", _) => { let v: Vec<Option<bool>> = de(&d); ser(&v.into_iter().map(|_| None::<bool>).collect::<Vec<_>>()) }
+                ("labels", "opt_all_some") => { let v: Vec<Option<u128>> = de(&d); ser(&v.into_iter().map(|e| e.or(Some(5))).collect::<Vec<_>>()) }
+                ("labels", "opt_first_none") => { let mut v: Vec<Option<u128>> = de(&d); if let Some(e) = v.iter_mut().find(|e| e.is_some()) { *e = None; } ser(&v) }
+                ("labels", _) => { let v: Vec<Option<u128>> = de(&d); ser(&v.into_iter().map(|_| None::<u128>).collect::<Vec<_>>()) }
+                (_, "opt_all_some") => { let v: Vec<Option<(bool, u128)>> = de(&d); ser(&v.into_iter().map(|e| e.or(Some((true, 5)))).collect::<Vec<_>>()) }
+                _ => { let v: Vec<Option<(bool, u128)>> = de(&d); ser(&v.into_iter().map(|_| None::<(bool, u128)>).collect::<Vec<_>>()) } }) });
+        let run = exec::run(&c3, &args, &cfg, Some(m)); execs += 1;
+        *dist.entry(format!("class3:{cl}")).or_default() += 1; distinct.insert((pe, format!("3p/{ph0}/{adv}"), cl, okind(&run.outs[0])));
+        for v in (0..3).filter(|v| *v != adv) { let o = &run.outs[v];
+            let desc = json!({"n": 3, "adversary": adv, "victim": v, "victim_is_evaluator": pe == v, "phase": ph0, "class": cl});
+            if let Out::Panic(msg) = o { failures.push(json!({"witness": "C08:other-panic", "failure": format!("victim panicked: {msg}"), "case": desc})); }
+            if matches!(o, Out::Blocked) && !matches!(run.outs[adv], Out::Blocked) && (0..3).filter(|q| *q != v).all(|q| !matches!(run.outs[q], Out::Blocked)) { failures.push(json!({"witness": "C08:hang", "failure": "victim blocked although every other party has terminated", "case": desc})); } }
+      } } } }
     // crash points: the peer vanishes after its k-th message
     for k in (0..=total).step_by(if thorough { 1 } else { 5 }) { for pe in 0..2 {
         let run = exec::run_kill(&c, &mk(pe), &cfg, None, Some((1, k))); execs += 1; let o = &run.outs[0];
@@ -509,6 +535,10 @@ fn c03(seed: u64, _cases: usize, _model_path: &str) -> serde_json::Value {
             // C02 oracle: Ok must be f(x_H, x') for some x'
             if let Out::Ok(v) = o { let allowed: Vec<Vec<bool>> = [false, true].iter().map(|x1| { let mut i = inputs.clone(); i[adv] = vec![*x1]; c.eval(&i) }).collect();
                 if !allowed.contains(v) { failures.push(json!({"property": "C02", "witness": if phase == "output wire shares" && field == "missing" { "C02-a:missing-output-share" } else { "C02:other" }, "failure": format!("honest party accepted {} not in {:?}", circ::bits(v), allowed.iter().map(|a| circ::bits(a)).collect::<Vec<_>>()), "case": desc.clone()})); } }
+            // C02 oracle, agreement: every party is an output party here, so all honest parties that finish Ok must hold the SAME output (one substitution of the
+            // corrupted input for everybody)
+            { let oks: Vec<&Vec<bool>> = (0..n).filter(|p| *p != adv).filter_map(|p| if let Out::Ok(v) = &run.outs[p] { Some(v) } else { None }).collect();
+              if oks.windows(2).any(|w| w[0] != w[1]) { failures.push(json!({"property": "C02", "witness": "C02:honest-parties-disagree", "failure": format!("honest parties finished Ok with different outputs: {:?}", run.outs.iter().map(short).collect::<Vec<_>>()), "case": desc.clone()})); } }
             // C03 oracle: a forged authenticated value must make its consumer abort (a flipped *unused* value may legitimately go unnoticed: only `equivocate` with n=3 can hit the echo of another party first)
             match o { Out::Err(_) => {}
                 Out::Panic(msg) => failures.push(json!({"property": "C03", "witness": if msg.contains("decryption failed") { "C08-a:row-decrypt-expect" } else { "C03:panic" }, "failure": format!("victim panicked instead of returning Err: {msg}"), "case": desc})),
@@ -722,6 +752,21 @@ fn c04(seed: u64, cases: usize, _model_path: &str) -> serde_json::Value {
         let o = &run.outs[victim]; *dist.entry(format!("mirror:{group}")).or_default() += 1; distinct.insert(format!("mirror/{group}/{victim}"));
         let rejected = match o { Out::Err(e) => e.contains("WrongMAC") || e.contains("CommitmentCouldNotBeOpened") || e.contains("XorNotZero") || e.contains("Broadcast") || e.contains("KOS"), _ => false };
         if !rejected { failures.push(json!({"witness": format!("C04:mirrored:{group}"), "failure": format!("the peer echoed the victim's own {phases:?} messages back and the victim did not reject them: {}", short(o)), "case": {"n": n, "victim": victim}})); }
+    } }
+    // ---- (a6) EQUIVOCATION with values that are each acceptable on their own: in a verified broadcast the peer sends one victim a different, but
+    // individually valid, message (the two commitments c0 / c1 of every aShare check object swapped: receivers accept an opening that matches
+    // either). Only the echo round of the broadcast can notice. Three parties, every cheater index, either victim: BOTH honest parties must fail.
+    for adv in 0..3usize { for vsel in 0..2usize { let n = 3; let victim = (0..n).filter(|p| *p != adv).nth(vsel).unwrap(); let c = mk_circ(n);
+        let args: Vec<PartyArgs> = (0..n).map(|p| PartyArgs { inputs: vec![r.bool()], p_eval: 0, p_own: p, p_out: (0..n).collect(), tmp_dir: None }).collect();
+        let hit = std::rc::Rc::new(std::cell::Cell::new(false)); let hit2 = hit.clone();
+        let m: exec::Mutator = Box::new(move |from, to, p, k, d| { if from != adv || to != victim || p != "fashare comm" || k != 0 { return Some(d); }
+            let mut v: Vec<([u8; 32], [u8; 32], [u8; 32])> = de(&d); for e in v.iter_mut() { std::mem::swap(&mut e.0, &mut e.1); } hit2.set(true); Some(ser(&v)) });
+        let run = exec::run(&c, &args, &RunCfg { cap: 1, sched: Sched::RoundRobin, keep_payloads: false }, Some(m)); execs += 1;
+        if !hit.get() { continue; }
+        *dist.entry("equivocation:fashare comm".into()).or_default() += 1; distinct.insert(format!("equivocate/{adv}/{victim}"));
+        let honest: Vec<usize> = (0..n).filter(|p| *p != adv).collect();
+        let undetected: Vec<usize> = honest.iter().cloned().filter(|p| !matches!(&run.outs[*p], Out::Err(e) if e.contains("InconsistentBroadcast") || e.contains("Preprocessing") && !e.contains("ChannelErr"))).collect();
+        if undetected.len() == honest.len() { failures.push(json!({"witness": "C04:equivocation-undetected", "failure": format!("party {adv} sent party {victim} its aShare commitments with c0 and c1 swapped (the other party got them in order) and no honest party noticed: {:?}", run.outs.iter().map(short).collect::<Vec<_>>()), "case": {"n": n, "adversary": adv, "victim": victim}})); }
     } }
     // ---- (b) ordering under many schedules
     let rounds = [("RNG comm", "RNG ver"), ("fashare comm", "fashare ver"), ("fashare comm", "fashare di_bi"), ("flaand comm", "flaand hash")];
@@ -1228,6 +1273,7 @@ fn c10l(seed: u64, cases: usize, model_path: &str) -> serde_json::Value {
     std::panic::set_hook(Box::new(|_| {}));
     let mut r = Rng::new(seed); let mut m = Model::spawn(model_path).expect("spawn ptmodel"); let mut disagreements = vec![]; let mut failures = vec![]; let mut samples = vec![]; let mut distinct = std::collections::BTreeSet::new(); let mut execs = 0u64; let mut compared = 0u64;
     let hexl = |v: &[u128]| if v.is_empty() { "-".to_string() } else { v.iter().map(|x| format!("{x:x}")).collect::<Vec<_>>().join(",") };
+    let (mut pad_total, mut pad_equal) = (0u64, 0u64);
     for _case in 0..cases { let n = r.range(2, 3) as usize; let g = r.range(2, 6) as usize; let a = r.range(1, 3.min(g as u64)) as usize; let (c, feat) = circ::generate(&mut r, n, g, a); if feat.ands == 0 { continue; }
         let inputs: Vec<Vec<bool>> = c.input_regs.iter().map(|k| (0..*k).map(|_| r.bool()).collect()).collect();
         let args: Vec<PartyArgs> = (0..n).map(|p| PartyArgs { inputs: inputs[p].clone(), p_eval: 0, p_own: p, p_out: vec![0], tmp_dir: None }).collect();
@@ -1237,6 +1283,11 @@ fn c10l(seed: u64, cases: usize, model_path: &str) -> serde_json::Value {
         if !run.outs.iter().all(|o| matches!(o, Out::Ok(_))) { failures.push(json!({"failure": "honest run failed"})); continue; }
         let l = feat.ands; let b = polytune::verif::bucket_size(l); let lp = l * b; let get = |k: &str, p: usize| -> Vec<u128> { taps.iter().find(|t| t.0 == k && t.1 == p).map(|t| t.2.clone()).unwrap_or_default() };
         let deltas: Vec<u128> = (0..n).map(|p| get("delta", p)[0]).collect();
+        // C06 (three parties and more): the blinding bits of the half-AND messages must be drawn per RECEIVER; if the pads a party uses for two
+        // receivers coincide at every position, the two receivers can pool their messages and read the party's private y bits
+        if n >= 3 { for p in 0..n { let pads: Vec<&Vec<u128>> = taps.iter().filter(|t| t.0 == "haand_s" && t.1 == p).map(|t| &t.2).collect();
+            for a in 0..pads.len() { for b in a + 1..pads.len() { if pads[a][0] != pads[b][0] { let k = pads[a].len().min(pads[b].len());
+                pad_total += (k - 1) as u64; pad_equal += (1..k).filter(|i| pads[a][*i] == pads[b][*i]).count() as u64; } } } } }
         let mut req = format!("laand n={n} lp={lp} delta={}", hexl(&deltas));
         for p in 0..n { req += &format!(" xyz{p}={}", hexl(&get("beaver_abc", p)));
             for t in taps.iter().filter(|t| t.0 == "haand_s" && t.1 == p) { req += &format!(" s{p}_{}={}", t.2[0], t.2[1..].iter().map(|x| if *x != 0 { '1' } else { '0' }).collect::<String>()); } }
@@ -1250,7 +1301,9 @@ fn c10l(seed: u64, cases: usize, model_path: &str) -> serde_json::Value {
         distinct.insert((circ::to_line(&c), n));
         if !bad.is_empty() || !resp.starts_with("laand ") { disagreements.push(json!({"differences": bad, "n": n, "leaky_triples": lp, "resp_head": resp.chars().take(60).collect::<String>()})); } else if samples.len() < 2 { samples.push(json!({"n": n, "leaky_triples": lp, "tokens": resp.split_whitespace().count() - 1})); }
     }
-    json!({"executions": execs, "messages_and_share_vectors_compared": compared, "distinct_nontrivial": distinct.len(), "distribution": {}, "samples": samples, "model_disagreements": disagreements, "impl_vs_oracle_failures": failures, "model_requests": m.requests})
+    if pad_total >= 64 && pad_equal == pad_total { failures.push(json!({"property": "C06", "witness": "C06:haand-pads-shared", "failure": format!("the half-AND blinding bits a party used for two different receivers were equal at all {pad_total} compared positions: two receivers together can unblind the party's private bits")})); }
+    let mut dist: BTreeMap<String, u64> = BTreeMap::new(); dist.insert("haand_pad_positions_compared_across_receivers".into(), pad_total); dist.insert("haand_pad_positions_equal".into(), pad_equal);
+    json!({"executions": execs, "messages_and_share_vectors_compared": compared, "distinct_nontrivial": distinct.len(), "distribution": dist, "samples": samples, "model_disagreements": disagreements, "impl_vs_oracle_failures": failures, "model_requests": m.requests})
 }
 
 /// C12 program-order tie: per (party, peer) the order in which sends are issued / completed and receives are issued / completed never
